@@ -30,10 +30,9 @@ next to an arbitrary table of other module records and any position of the dynam
   afterwards is the ACK's (= the manager's record), a dynamic one is in range and held by no other record;
 * `disconnected_refuses`; `life_step_meets_spec`, `life_history_meets_spec`, `life_from_init_meets_spec` — the
   life-cycle Spec (`Spec/ClientLife.lean`, the oracle run on the implementation) holds of the model.
-Every history theorem asks for `ops.all LOp.timely`: no handshake of the history is answered later than the 3 s of
-`_wait_for_acknowledgement` (`connectLate`).  The model has that operation too — exactly as the code behaves — and
-`late_ack_breaks_agreement` is the kernel-checked counterexample: `connect()` then raises `AcknowledgementTimeout`
-but leaves the object connected and un-reset (open finding C02-F4, `out/defect_1.md`).
+A handshake the manager answers later than the 3 s of `_wait_for_acknowledgement` is an operation of the model too
+(`connectLate`, `late_ack_leaves_disconnected`): since fix 5d9f32d (finding C02-F4) `connect()` then leaves the object
+disconnected, so the history theorems need no hypothesis about it.
 Not in the model: module names (the harness connects with the empty name), a connection that dies *between* two
 control frames of one call (the frames of a call travel in unspecified order; only "before the first" is modelled),
 logger / daemon flags (they do not touch the subscription state; C06 entry model).
@@ -233,31 +232,30 @@ def reach (cfg : IdCfg) (created : Int) (others : List (Int × Bool)) (cursor : 
   lrun cfg (LSys.init created others cursor) ops
 
 theorem life_invariant (cfg : IdCfg) (created : Int) (others : List (Int × Bool)) (cursor : Nat)
-    (hc : cursor < cfg.maxDyn) (ops : List LOp) (ht : ops.all LOp.timely = true) :
+    (hc : cursor < cfg.maxDyn) (ops : List LOp) :
     LInv cfg (reach cfg created others cursor ops) ∧ (reach cfg created others cursor ops).cl.created = created :=
-  lrun_inv ops (linv_init cfg created others cursor hc) ht
+  lrun_inv ops (linv_init cfg created others cursor hc)
 
 /-- **Agreement over any number of sessions.**  After every history, a connected client's *current* connection is in
 the manager's table, the two sides agree on the subscription set (`Agree`), a probe of type `t` reaches the client
 iff it reports `t` (or ALL), and paused types are not delivered.  Whatever earlier sessions subscribed to, however
 they ended. -/
 theorem life_agree_history (cfg : IdCfg) (created : Int) (others : List (Int × Bool)) (cursor : Nat)
-    (hc : cursor < cfg.maxDyn) (ops : List LOp) (ht : ops.all LOp.timely = true)
-    (hconn : (reach cfg created others cursor ops).cl.connected = true) :
+    (hc : cursor < cfg.maxDyn) (ops : List LOp) (hconn : (reach cfg created others cursor ops).cl.connected = true) :
     ∃ r, (reach cfg created others cursor ops).mg.find (reach cfg created others cursor ops).cl.conn = some r ∧
       Agree (reach cfg created others cursor ops).cl.sub r.m ∧
       (∀ t, delivered r.m t = true ↔ (t ∈ (reach cfg created others cursor ops).cl.sub.subscribed ∨
         ALL ∈ (reach cfg created others cursor ops).cl.sub.subscribed)) ∧
       (∀ t ∈ (reach cfg created others cursor ops).cl.sub.paused, delivered r.m t = false) := by
-  obtain ⟨r, hf, _, _, hag⟩ := (life_invariant cfg created others cursor hc ops ht).1.cur hconn
+  obtain ⟨r, hf, _, _, hag⟩ := (life_invariant cfg created others cursor hc ops).1.cur hconn
   exact ⟨r, hf, hag, delivered_iff hag, paused_not_delivered hag⟩
 
 /-- … and after **every phase** of the next call too (entry and exit of the context managers included). -/
-theorem life_agree_every_phase {cfg : IdCfg} {s : LSys} (h : LInv cfg s) (op : LOp) (ht : op.timely = true) :
+theorem life_agree_every_phase {cfg : IdCfg} {s : LSys} (h : LInv cfg s) (op : LOp) :
     ∀ x ∈ lstep cfg s op, x.1.cl.connected = true →
       ∃ r, x.2.find x.1.cl.conn = some r ∧ Agree x.1.cl.sub r.m := by
   intro x hx hc
-  obtain ⟨r, hf, _, _, hag⟩ := ((lstep_facts h op ht).1 x hx).inv.cur hc
+  obtain ⟨r, hf, _, _, hag⟩ := ((lstep_facts h op).1 x hx).inv.cur hc
   exact ⟨r, hf, hag⟩
 
 /-- **Right after any (re)connect both sides are empty and not subscribed-to-all** — on a client that was connected,
@@ -277,9 +275,9 @@ theorem connect_starts_empty {cfg : IdCfg} {s : LSys} (h : LInv cfg s) (allow : 
 /-- **Every connect asks for the id the object was created with** (0 = "assign me one"), whatever happened before:
 after any history — a dynamic id learnt in an earlier session, a lost connection, a refused connect. -/
 theorem connect_requests_created_id (cfg : IdCfg) (created : Int) (others : List (Int × Bool)) (cursor : Nat)
-    (hc : cursor < cfg.maxDyn) (ops : List LOp) (ht : ops.all LOp.timely = true) (allow : Bool) :
+    (hc : cursor < cfg.maxDyn) (ops : List LOp) (allow : Bool) :
     (connectOp cfg (reach cfg created others cursor ops) allow).1.req = some created := by
-  obtain ⟨hinv, hcr⟩ := life_invariant cfg created others cursor hc ops ht
+  obtain ⟨hinv, hcr⟩ := life_invariant cfg created others cursor hc ops
   obtain ⟨hf, hs⟩ := connectOp_facts hinv allow
   obtain ⟨q, hq⟩ := Option.isSome_iff_exists.1 hs
   rw [hq, (hf.req q hq).1, hcr]
@@ -318,19 +316,17 @@ theorem dynamic_id_fresh {cfg : IdCfg} {s : LSys} (h : LInv cfg s) (hdyn : s.cl.
 theorem lost_keeps_state (s : LSys) (n : Bool) :
     (loseConn s n).1.cl = { s.cl with connected := false } ∧ (loseConn s n).1.status = .lost := ⟨rfl, rfl⟩
 
-/-- **Why the theorems ask for timely handshakes (open finding C02-F4).**  A client subscribed to 7 loses its
-connection and connects again; the manager answers after the client's 3 s: `connect()` raises
-`AcknowledgementTimeout` and leaves the object *connected*, still reporting 7 — and, created with id 0, reporting
-`module_id` 0 — while the manager, which has by now accepted the connection as id 101, holds an empty record for it:
-the invariant is broken and the life-cycle Spec fails on the model's own trace. -/
-theorem late_ack_breaks_agreement :
-    let s := reach {} 0 [] 0 [.connect false, .sub (.ctl .subscribe [7]), .lostRead true, .connectLate false]
-    s.cl.connected = true ∧ s.cl.sub.subscribed = [7] ∧ s.cl.modId = 0 ∧
-    s.mg.conns.map (fun r => (r.cid, r.modId, r.live, r.m.subs)) = [(2, 101, true, [])] ∧
-    lhistOk {} [7] 0 (LObs.fresh 0) [.connect false, .sub (.ctl .subscribe [7]), .lostRead true, .connectLate false]
-      (ltrace {} [7] (LSys.init 0 [] 0) [.connect false, .sub (.ctl .subscribe [7]), .lostRead true, .connectLate false])
-      = false := by
-  decide +kernel
+/-- **A handshake the manager answers too late leaves the client disconnected** (finding C02-F4, fixed by 5d9f32d;
+before the fix the object stayed connected with the old sets and the agreement broke — the counterexample theorem
+`late_ack_breaks_agreement` of the earlier model is gone with the behaviour).  `connect()` raises
+`AcknowledgementTimeout`; the sets are what they were (empty if `connect()` had to disconnect first), which is
+harmless on a disconnected client: the next accepted connect resets them (`connect_starts_empty`). -/
+theorem late_ack_leaves_disconnected (cfg : IdCfg) (s : LSys) (allow : Bool) :
+    (connectLateOp cfg s allow).1.cl.connected = false ∧ (connectLateOp cfg s allow).1.status = .ackTimeout ∧
+    (connectLateOp cfg s allow).1.req = some (if s.cl.created == 0 then 0 else s.cl.modId) ∧
+    (connectLateOp cfg s allow).1.cl.sub = if s.cl.connected then ⟨false, [], []⟩ else s.cl.sub := by
+  unfold connectLateOp
+  by_cases hc : s.cl.connected = true <;> simp [hc, disconnectOp, okPhase, CState.init]
 
 /-- `disconnect()` resets the three subscription fields and keeps the id. -/
 theorem disconnect_resets (s : LSys) :
@@ -345,11 +341,11 @@ theorem disconnected_refuses (cfg : IdCfg) (s : LSys) (op : Op) (hop : op ≠ .r
 and `fresh_session_is_empty` after every phase, the first layer's clauses for subscription calls on a connected client,
 `connect_requests_created_id`, `reported_id_is_acked_id`, `dynamic_id_fresh_and_in_range`. -/
 theorem life_step_meets_spec (U : List Int) {cfg : IdCfg} {s : LSys} (h : LInv cfg s) (pre : LObs)
-    (hv : pre.view = lview U s.cl s.mg) (hcn : pre.connected = s.cl.connected) (op : LOp) (ht : op.timely = true) :
+    (hv : pre.view = lview U s.cl s.mg) (hcn : pre.connected = s.cl.connected) (op : LOp) :
     ((lstep cfg s op).map (lobs U)).isEmpty = false ∧
     lopFail02 U pre op ((lstep cfg s op).map (lobs U)) = none ∧
     lopFail06 cfg s.cl.created op ((lstep cfg s op).map (lobs U)) = none := by
-  obtain ⟨hfacts, hne, hconn⟩ := lstep_facts h op ht
+  obtain ⟨hfacts, hne, hconn⟩ := lstep_facts h op
   refine ⟨by simpa using hne, ?_, ?_⟩
   · -- C02
     have hlife : (((lstep cfg s op).map (lobs U)).flatMap (lifeC02 U)).find? (fun c => !c.2) = none := by
@@ -393,22 +389,21 @@ theorem life_step_meets_spec (U : List Int) {cfg : IdCfg} {s : LSys} (h : LInv c
 what the real `Client` and the real manager did, call by call, each call judged from the observation its
 predecessors left behind. -/
 theorem life_history_meets_spec (U : List Int) (cfg : IdCfg) : ∀ (ops : List LOp) (s : LSys) (pre : LObs),
-    LInv cfg s → pre.view = lview U s.cl s.mg → pre.connected = s.cl.connected → ops.all LOp.timely = true →
+    LInv cfg s → pre.view = lview U s.cl s.mg → pre.connected = s.cl.connected →
     lhistOk cfg U s.cl.created pre ops (ltrace cfg U s ops) = true
-  | [], _, _, _, _, _, _ => rfl
-  | op :: ops, s, pre, h, hv, hcn, ht => by
-    simp only [List.all_cons, Bool.and_eq_true] at ht
-    obtain ⟨h1, h2, h3⟩ := life_step_meets_spec U h pre hv hcn op ht.1
-    obtain ⟨hinv, hcr⟩ := lstep_inv h op ht.1
-    obtain ⟨hv', hcn'⟩ := lastObs_lafter U pre s (lstep cfg s op) (lstep_facts h op ht.1).2.1
-    have ih := life_history_meets_spec U cfg ops _ _ hinv hv' hcn' ht.2
+  | [], _, _, _, _, _ => rfl
+  | op :: ops, s, pre, h, hv, hcn => by
+    obtain ⟨h1, h2, h3⟩ := life_step_meets_spec U h pre hv hcn op
+    obtain ⟨hinv, hcr⟩ := lstep_inv h op
+    obtain ⟨hv', hcn'⟩ := lastObs_lafter U pre s (lstep cfg s op) (lstep_facts h op).2.1
+    have ih := life_history_meets_spec U cfg ops _ _ hinv hv' hcn'
     rw [hcr] at ih
     simp only [ltrace, lhistOk, h1, h2, h3, Bool.not_false, Option.isNone_none, Bool.true_and]
     exact ih
 
 /-- … in particular from the constructor on -/
 theorem life_from_init_meets_spec (U : List Int) (cfg : IdCfg) (created : Int) (others : List (Int × Bool)) (cursor : Nat)
-    (hc : cursor < cfg.maxDyn) (ops : List LOp) (ht : ops.all LOp.timely = true) :
+    (hc : cursor < cfg.maxDyn) (ops : List LOp) :
     lhistOk cfg U created (LObs.fresh created) ops (ltrace cfg U (LSys.init created others cursor) ops) = true := by
   have h := linv_init cfg created others cursor hc
   have hnone : (LSys.init created others cursor).mg.find 0 = none := by
@@ -420,7 +415,7 @@ theorem life_from_init_meets_spec (U : List Int) (cfg : IdCfg) (created : Int) (
   exact life_history_meets_spec U cfg ops (LSys.init created others cursor) (LObs.fresh created) h
     (by simp only [LObs.fresh, lview]
         have : (LSys.init created others cursor).cl.conn = 0 := rfl
-        rw [this, hnone]; rfl) rfl ht
+        rw [this, hnone]; rfl) rfl
 
 
 /-! ### Non-vacuity and the repaired defects as concrete witnesses -/
@@ -477,6 +472,12 @@ example : (lstep {} (reach {} 12 [] 0 [.connect false, .lostRead false]) (.conne
     (fun x => (x.1.status, x.1.req, x.1.ack)) = [(.lost, some 12, none)] := by decide +kernel
 example : (lstep {} (reach {} 12 [] 0 [.connect false, .lostRead false, .mgrNotices]) (.connect false)).map
     (fun x => (x.1.status, x.1.req, x.1.ack)) = [(.ok, some 12, some 12)] := by decide +kernel
+/-- a late ACK: the client ends disconnected (sets stale, harmless), the manager keeps the accepted record until it
+notices; the next connect starts empty under a fresh id -/
+example : (reach {} 0 [] 0 [.connect false, .sub (.ctl .subscribe [7]), .lostRead true, .connectLate false]).cl =
+    ⟨0, 0, false, 2, ⟨false, [7], []⟩⟩ := by decide +kernel
+example : (reach {} 0 [] 0 [.connect false, .sub (.ctl .subscribe [7]), .lostRead true, .connectLate false,
+    .connect false]).cl = ⟨0, 102, true, 3, ⟨false, [], []⟩⟩ := by decide +kernel
 /-- every dynamic id taken: refused -/
 example : (connectOp ⟨100, 102⟩ (LSys.init 0 [(100, true), (101, true)] 1) false).1.status = .lost := by decide +kernel
 /-- `connect()` on a connected client: the old record is gone, the new one is empty -/
